@@ -31,11 +31,12 @@ func init() {
 // request scripts
 
 type wreq struct {
-	Kind   string
-	Raw    []byte
-	Kills  bool // the server is expected to close the connection after answering this one
-	Head   bool
-	Cookie string // flash cookie class carried
+	Kind    string
+	Raw     []byte
+	Kills   bool // the server is expected to close the connection after answering this one
+	EndConn bool // the client closes the connection after this request (the next one opens a new one)
+	Head    bool
+	Cookie  string // flash cookie class carried
 }
 
 type reqSpec struct {
@@ -156,7 +157,7 @@ func genHistoryReq(r *gen.Rand, tag string, custom bool) wreq {
 		q.Other = "name=" + tag + "cn; tag=" + tag + "ct; n=" + gen.Pick(r, []string{"5", "x", ""})
 	}
 	kind := ""
-	switch r.PickW(14, 12, 14, 10, 10, 6, 4, 5, 5, 4, 4, 6, 6, 10, 10, 10, 8) {
+	switch r.PickW(14, 12, 14, 10, 10, 6, 4, 5, 5, 4, 4, 6, 6, 10, 10, 10, 8, 8) {
 	case 0:
 		kind = "many-params"
 		var sb strings.Builder
@@ -237,6 +238,9 @@ func genHistoryReq(r *gen.Rand, tag string, custom bool) wreq {
 		q.Target = "/locals/" + tag
 	case 13:
 		return genHalfBind(r, tag, q, class)
+	case 17:
+		kind = "admin"
+		q.Target = gen.Pick(r, []string{"/admin/reports/" + tag, "/admin/reports/" + tag, "/admin/fail/" + tag, "/admin/nothing/" + tag})
 	case 14:
 		return genXBind(r, tag, q, class, "")
 	case 15:
@@ -374,7 +378,66 @@ func genFileProbe(r *gen.Rand, variant int) probeSpec {
 	return probeSpec{Route: -1, Class: ckNone, Variant: "sendfile", Raw: q.raw()}
 }
 
+// genEHProbe: a probe that is answered through an ErrorHandler — a path nothing is registered
+// for (404), a path registered for other methods (405), or a request the server rejects before
+// routing (413 body over the limit, 400 malformed header, 431 oversized header), the latter also
+// with methods the app does not route.
+func genEHProbe(r *gen.Rand, mount bool) probeSpec {
+	const tag = "PRB"
+	ps := probeSpec{Route: -1, Class: ckNone, ViaEH: true}
+	q := &reqSpec{Host: gen.Pick(r, hosts)}
+	decorate(r.Split(), q)
+	paths := []string{"/dav/" + tag + r.StringFrom(pathAlpha, r.Range(1, 12)), "/" + tag, "/many/" + tag + "/only-two"}
+	if mount || r.Chance(1, 4) {
+		paths = append(paths, "/admin/reports", "/admin/"+tag+"/x", "/admin")
+	}
+	kind := gen.Pick(r, []string{"405", "405", "404", "413", "413", "400", "431"})
+	switch kind {
+	case "405":
+		q.Method = gen.Pick(r, []string{"POST", "PUT", "DELETE"})
+		q.Target = gen.Pick(r, []string{"/getonly", "/base", "/err/400", "/override/" + tag, "/file/0"})
+		if q.Method != "DELETE" {
+			q.Body = []byte{}
+		}
+		ps.Raw = q.raw()
+	case "404":
+		q.Method = gen.Pick(r, []string{"GET", "POST", "DELETE"})
+		q.Target = gen.Pick(r, paths) + "?name=" + tag + "qn"
+		if q.Method == "POST" {
+			q.Body = []byte{}
+		}
+		ps.Raw = q.raw()
+	case "413":
+		q.Method = gen.Pick(r, []string{"PATCH", "PROPFIND", "PURGE", "REPORT"})
+		q.Target = gen.Pick(r, paths)
+		q.Hdr = append(q.Hdr, [2]string{"Content-Length", strconv.Itoa(r.Range(3001, 9000))})
+		raw := q.raw()
+		ps.Raw = append(raw, bytes.Repeat([]byte("x"), 64)...)
+		ps.OwnConn = r.Bool()
+	case "400":
+		q.Method = gen.Pick(r, []string{"GET", "PROPFIND", "LINK"})
+		q.Target = gen.Pick(r, paths)
+		q.Hdr = append(q.Hdr, gen.Pick(r, [][2]string{{"X-Ctl", "a\x01b"}, {"X-Del", "d\x7fl"}, {"X-Nul", "n\x00l"}}))
+		ps.Raw = q.raw()
+		ps.OwnConn = true
+	case "431":
+		q.Method = gen.Pick(r, []string{"GET", "PROPFIND"})
+		q.Target = gen.Pick(r, paths)
+		q.Hdr = append(q.Hdr, [2]string{"X-Big", r.StringFrom(gen.AlphaNum, r.Range(4200, 6000))})
+		ps.Raw = q.raw()
+		ps.OwnConn = true
+	}
+	ps.Variant = "eh-" + kind
+	return ps
+}
+
 type probeSpec struct {
+	// OwnConn: the probe is sent on a connection of its own (same app, same worker, same context
+	// pool). The text of fasthttp's parse errors quotes the read buffer, whose fill depends on
+	// where in the byte stream of a connection the request sits; on its own connection the probe
+	// sits where it sits in the reference run.
+	OwnConn bool
+	ViaEH   bool   // the probe is answered through an ErrorHandler, whose observation is the vector
 	XSrc    string // source the probe binds the multi-named struct from ("" = not at all)
 	Route   int
 	Class   string // flash cookie class of the probe
@@ -440,6 +503,9 @@ func genProbeX(r *gen.Rand, forceClass string, xsrcSel string) probeSpec {
 	}
 	if r.Chance(1, 4) {
 		qs = append(qs, "n="+gen.Pick(r, []string{"9", "bad"}))
+	}
+	if r.Chance(1, 4) {
+		qs = append(qs, "ret="+gen.Pick(r, predeclaredNames))
 	}
 	if len(qs) > 0 {
 		q.Target += "?" + strings.Join(qs, "&")
@@ -595,7 +661,7 @@ func serveScript(w *drive.Wire, reqs []wreq) served {
 		for j < len(reqs) {
 			in.Write(reqs[j].Raw)
 			j++
-			if reqs[j-1].Kills {
+			if reqs[j-1].Kills || reqs[j-1].EndConn {
 				break
 			}
 		}
@@ -645,6 +711,8 @@ func genIsoCase(r *gen.Rand) isoCase {
 	ic := genIsoCase0(r)
 	if r.Chance(1, 12) {
 		ic.Probe = genFileProbe(r.Split(), r.Intn(nSendFileVariants))
+	} else if r.Chance(1, 8) {
+		ic.Probe = genEHProbe(r.Split(), ic.Cfg.Mount)
 	}
 	return ic
 }
@@ -661,7 +729,7 @@ func genIsoCase0(r *gen.Rand) isoCase {
 }
 
 func judgeIso(e *ev.Env, c *ev.Case, ic isoCase) {
-	probeReq := wreq{Kind: "probe", Raw: ic.Probe.Raw, Cookie: ic.Probe.Class}
+	probeReq := wreq{Kind: "probe", Raw: ic.Probe.Raw, Cookie: ic.Probe.Class, Kills: ic.Probe.ViaEH}
 
 	// reference: the probe as first request of a fresh app
 	freshPools()
@@ -673,6 +741,9 @@ func judgeIso(e *ev.Env, c *ev.Case, ic isoCase) {
 	freshPools()
 	happ, hs := isoBuild(ic.Cfg)
 	script := append(append([]wreq(nil), ic.History...), probeReq)
+	if ic.Probe.OwnConn && len(script) > 1 {
+		script[len(script)-2].EndConn = true
+	}
 	hsv := serveScript(drive.NewWire(happ), script)
 	e.Eval(1)
 	e.Stat("requests", int64(len(script)+1))
@@ -700,10 +771,19 @@ func judgeIso(e *ev.Env, c *ev.Case, ic isoCase) {
 		return d
 	}
 
+	if ic.Probe.ViaEH {
+		// the ErrorHandler invoked last (the probe is the last request) is the observer
+		fs.vec, fs.probes, fs.reused = fs.ehVec, min(fs.ehCount, 1), fs.ehReused
+		hs.vec, hs.probes, hs.reused = hs.ehVec, min(hs.ehCount, 1), hs.ehReused
+	}
 	if fsv.problem != "" || hsv.problem != "" || fs.probes != 1 || hs.probes != 1 || fs.vec == nil || hs.vec == nil {
 		// the harness could not observe the probe on both sides: not a verdict about the property
 		e.Stat("unobserved", 1)
-		e.Inconclusive(fmt.Sprintf("%s: probe not observed (fresh: %q probes=%d; history: %q probes=%d)", c.ID, fsv.problem, fs.probes, hsv.problem, hs.probes))
+		st := 0
+		if fsv.probeResp != nil {
+			st = fsv.probeResp.Status
+		}
+		e.Inconclusive(fmt.Sprintf("%s: probe not observed (fresh: %q probes=%d status=%d; history: %q probes=%d; probe %s %q)", c.ID, fsv.problem, fs.probes, st, hsv.problem, hs.probes, ic.Probe.Variant, string(ic.Probe.Raw)))
 		return
 	}
 	if fs.reused {
@@ -1016,6 +1096,60 @@ func runIsolation(e *ev.Env) {
 		ic.Probe = genProbeX(r.Split(), gen.Pick(r, []string{ckNone, ckNone, ckNone, ckPartial, ckTruncated}), "")
 		judgeIso(e, c, ic)
 	})
+	// directed family: the probe is answered through an ErrorHandler (404/405, rejected requests,
+	// also with methods the app does not route) after ordinary requests on the same pooled context
+	e.Cases("ehprobe", e.N(400, 10000), func(c *ev.Case) {
+		r := c.R
+		ic := isoCase{Cfg: isoCfg{Custom: r.Chance(1, 2), PassLocals: r.Bool(), Immutable: r.Chance(1, 4)}}
+		ic.Cfg.widen(r)
+		for i := r.Range(1, 4); i > 0; i-- {
+			tag := "h" + strconv.Itoa(len(ic.History)) + "x"
+			if r.Bool() {
+				q := &reqSpec{Host: gen.Pick(r, hosts), Target: gen.Pick(r, []string{"/admin/reports/" + tag, "/base", "/locals/" + tag, "/getonly",
+					"/many/" + tag + "/2/3/4/5/6/7/8/9/10", "/redir/" + tag + "?n=1"})}
+				decorate(r.Split(), q)
+				ic.History = append(ic.History, wreq{Kind: "routed", Raw: q.raw(), Cookie: ckNone})
+			} else {
+				ic.History = append(ic.History, genHistoryReq(r.Split(), tag, ic.Cfg.Custom))
+			}
+		}
+		ic.Probe = genEHProbe(r.Split(), ic.Cfg.Mount)
+		judgeIso(e, c, ic)
+	})
+	// directed family: malformed / oversized requests, then a probe whose handler refuses the
+	// request with one of the framework's predeclared errors
+	e.Cases("predeclared", e.N(300, 8000), func(c *ev.Case) {
+		r := c.R
+		ic := isoCase{Cfg: isoCfg{Custom: r.Chance(1, 3), PassLocals: r.Bool(), Immutable: r.Chance(1, 4)}}
+		ic.Cfg.widen(r)
+		for i := r.Range(1, 3); i > 0; i-- {
+			tag := "h" + strconv.Itoa(len(ic.History)) + "x"
+			raws := []string{
+				"GET /account/" + tag + " HTTP/1.1\r\nHost: x\r\nCookie: session=" + tag + "secret\r\nContent-Length: abc\r\n\r\n",
+				"GET /account/" + tag + " HTTP/1.1\r\nHost: x\r\n: empty-name-" + tag + "\r\n\r\n",
+				"GET /account/" + tag + "\r\nHost: x\r\n\r\n",
+				"POST /account/" + tag + " HTTP/1.1\r\nHost: x\r\nTransfer-Encoding: chunked\r\n\r\nzz\r\n" + tag + "\r\n0\r\n\r\n",
+				"POST /account/" + tag + " HTTP/1.1\r\nHost: x\r\nContent-Length: 9000\r\n\r\n",
+				"GET /account/" + tag + " HTTP/1.1\r\nHost: x\r\nX-Ctl: timeout a\x01b " + tag + "\r\n\r\n",
+			}
+			ic.History = append(ic.History, wreq{Kind: "malformed", Raw: []byte(gen.Pick(r, raws)), Kills: true, Cookie: ckNone})
+			if r.Chance(1, 3) {
+				ic.History = append(ic.History, genHistoryReq(r.Split(), "h"+strconv.Itoa(len(ic.History))+"x", ic.Cfg.Custom))
+			}
+		}
+		ps := genProbeX(r.Split(), "", "")
+		if !bytes.Contains(ps.Raw, []byte("ret=")) {
+			sep := []byte("?")
+			line := ps.Raw[:bytes.Index(ps.Raw, []byte(" HTTP/1.1\r\n"))]
+			if bytes.Contains(line, sep) {
+				sep = []byte("&")
+			}
+			ins := append(sep, []byte("ret="+gen.Pick(r, predeclaredNames))...)
+			ps.Raw = append(append(append([]byte(nil), line...), ins...), ps.Raw[len(line):]...)
+		}
+		ic.Probe = ps
+		judgeIso(e, c, ic)
+	})
 	if e.Only == "" {
 		e.Note("nontrivial_rule", "probe ran on a context object that served an earlier request of the same app (pointer logged by the entry middleware / ErrorHandler)")
 	}
@@ -1029,6 +1163,13 @@ func hostLineOf(raw []byte) []byte {
 	}
 	j := bytes.Index(raw[i+2:], []byte("\r\n"))
 	return raw[i+2 : i+2+j+2]
+}
+
+func firstLine(raw []byte) string {
+	if i := bytes.Index(raw, []byte("\r\n")); i >= 0 {
+		return string(raw[:i])
+	}
+	return string(raw)
 }
 
 func kindsOf(h []wreq) []string {
